@@ -35,11 +35,19 @@ static std::string transcript(SlotBase *s, int n) {
             out.clear(); echo = std::string(verb) + " 0 " + std::to_string(v);
             if (s->algo(verb, Args{std::to_string(v)}, out, echo)) o << out;
         }
-        for (int t = 0; t < n; ++t)
-            for (const char *verb : {"geodesic", "allgeodesics"}) {
+        for (int t = 0; t < n; ++t) {
+            for (const char *verb : {"geodesic", "allgeodesics", "pathto3", "allpathsto3"}) {
                 out.clear();
                 if (s->algo(verb, Args{std::to_string(v), std::to_string(t)}, out, echo)) o << out;
             }
+            // the public reconstruction functions called directly (search from v, and from t)
+            for (const char *verb : {"pathto", "allpathsto"}) {
+                out.clear();
+                if (s->algo(verb, Args{std::to_string(v), std::to_string(v), std::to_string(t)}, out, echo)) o << out;
+                out.clear();
+                if (s->algo(verb, Args{std::to_string(t), std::to_string(v), std::to_string(t)}, out, echo)) o << out;
+            }
+        }
     }
     for (const char *verb : {"writetext", "writebin"}) {
         out.clear();
